@@ -11,9 +11,9 @@ use aranya_policy_vm::{
 };
 use proptest::prelude::*;
 use serde::{Deserialize, Serialize};
-use vcommon::{CaseInfo, CheckResult, Ctx, Failure, Report, ensure, fail, idx};
+use vcommon::{CaseInfo, CheckResult, Ctx, Failure, Report, ensure, idx};
 
-use crate::util::{CS, Eng, SeedRng, engine, flip, nz};
+use crate::util::{CS, Eng, SeedRng, engine, flip};
 
 #[derive(Clone, Debug, Serialize, Deserialize)]
 enum Mut {
@@ -612,7 +612,6 @@ fn case(ffi: bool, nvar: usize) -> impl Strategy<Value = Case> {
 }
 
 pub fn run(ctx: &Ctx) -> ! {
-    let _ = nz(0);
     let mut rep = Report::new(ctx, "exploration");
     rep.assume("keys, and the engine's wrapping key, are derived from the case seed through a deterministic splitmix64 byte stream (Ed25519 signing itself is deterministic); the oracle never depends on the random values");
     rep.assume("cipher suite = DefaultCipherSuite (Ed25519, SHA-256 tuple hash); the hash and Ed25519 primitives themselves are trusted");
@@ -627,7 +626,7 @@ pub fn run(ctx: &Ctx) -> ! {
          round trip); every modification is rejected (import error or verify_cmd Err); every modified command re-signs to a \
          different id and its signature does not verify the original. non-trivial = >=3 modifications rejected",
         || case(false, 16),
-        ctx.pick(20_000, 600_000),
+        ctx.pick(30_000, 600_000),
         check_direct,
     );
     rep.explore(
@@ -638,7 +637,7 @@ pub fn run(ctx: &Ctx) -> ! {
          sign_cmd output must pass crypto::verify; a re-signed modified command with the stale id must fail. \
          non-trivial = >=3 modifications rejected",
         || case(true, 12),
-        ctx.pick(8_000, 250_000),
+        ctx.pick(12_000, 240_000),
         check_ffi,
     );
     rep.finish()
